@@ -364,7 +364,7 @@ func c20WalkAll(c *fw.Ctx, e *Env, ctx sdk.Context) {
 		ownersW = append(ownersW, w.Owner)
 		monW = append(monW, w.Moniker)
 	}
-	ownersW, monW = capStr(uniqStr(ownersW), 4), capStr(uniqStr(monW), 3)
+	ownersW, monW = capStr(uniqStr(ownersW), 4), monikerFilters(monW)
 	for _, of := range ownersW {
 		for _, mf := range monW {
 			var exp []listItem
@@ -402,7 +402,7 @@ func c20WalkAll(c *fw.Ctx, e *Env, ctx sdk.Context) {
 		ownersB = append(ownersB, b.Owner)
 		monB = append(monB, b.Moniker)
 	}
-	ownersB, monB = capStr(uniqStr(ownersB), 4), capStr(uniqStr(monB), 3)
+	ownersB, monB = capStr(uniqStr(ownersB), 4), monikerFilters(monB)
 	for _, of := range ownersB {
 		for _, mf := range monB {
 			var exp []listItem
@@ -483,6 +483,22 @@ func c20WalkAll(c *fw.Ctx, e *Env, ctx sdk.Context) {
 			return render(res.Streams), nk, tot, nil
 		})
 	}
+}
+
+// monikerFilters: "", up to three stored monikers, every stored spelling of "acme", and the
+// upper/lower-case variants of one stored moniker (which match only what is stored exactly so).
+func monikerFilters(stored []string) []string {
+	u := uniqStr(stored)
+	out := capStr(u, 4)
+	for _, m := range u {
+		if strings.EqualFold(m, "acme") {
+			out = append(out, m)
+		}
+	}
+	if len(u) > 1 {
+		out = append(out, strings.ToUpper(u[1]), strings.ToLower(u[1]))
+	}
+	return uniqStr(out)
 }
 
 func uniqStr(xs []string) []string {
